@@ -150,11 +150,11 @@ theorem async_flattened (src : Src) (lazy : Bool) (steps : List Step) (hr : runs
 /-- SharedFuture as a source (of the pipeline, or of a pipeline a functor builds / returns): a COPY of a SharedFuture the client
     keeps contributes the Result its promise was used with — however often copies are consumed, whenever the promise is used
     (before the pipeline is built: `pre`; before the copy is consumed: ready at once; later: the pipeline waits for it). -/
-theorem kept_shared_source_delivers_original (p : Nat) (f : Ful) (pre : Bool) (ctx : Option Nat) (g : G) :
-    specSrc cfg (.sharedKept p f pre) none false subs = (f.result, .inl, subs) ∧
-    (match startSrc cfg (.sharedKept p f pre) ctx g with
-     | .go r _ _ g' => r = f.result ∧ g' = g
-     | .wait w _ g' => w = .promise p f ∧ g' = g
+theorem kept_shared_source_delivers_original (e : Exec) (p : Nat) (f : Ful) (pre : Bool) (ctx : Option Nat) (g : G) :
+    specSrc cfg (.sharedKept e p f pre) none false subs = (f.result, e, subs) ∧
+    (match startSrc cfg (.sharedKept e p f pre) ctx g with
+     | .go r inh _ g' => r = f.result ∧ inh = e ∧ g' = g
+     | .wait w inh g' => w = .promise p f ∧ inh = e ∧ g' = g
      | .crash _ => False) := by
   refine ⟨rfl, ?_⟩
   cases h : g.isSet p pre <;> simp [startSrc, h]
@@ -310,6 +310,30 @@ theorem tie_Core_Drop : Extracted.Kernels.Core_Drop = Skeletons.Core_Drop := rfl
 theorem tie_Core_Impl : Extracted.Kernels.Core_Impl = Skeletons.Core_Impl := rfl
 theorem tie_Core_Here : Extracted.Kernels.Core_Here = Skeletons.Core_Here := rfl
 theorem tie_Core_CallImpl : Extracted.Kernels.Core_CallImpl = Skeletons.Core_CallImpl := rfl
+/-- util/detail/type_traits_impl.hpp and util/type_traits.hpp, whole text: IsInvocable / Invoke and their aliases -/
+theorem tie_type_traits_impl_hpp :
+    Extracted.Kernels.TraitSrc_type_traits_impl_hpp = Skeletons.TraitSrc_type_traits_impl_hpp := rfl
+theorem tie_type_traits_hpp : Extracted.Kernels.TraitSrc_type_traits_hpp = Skeletons.TraitSrc_type_traits_hpp := rfl
+/-- **the spelling of a callback's parameter does not matter — only what it is invocable with** (T1, Extracted/Dispatch.lean).
+    `is_invocable_v<F, X…>` is `detail::IsInvocable<F, X…>::Value`; IsInvocable has exactly the primary template
+    (`std::is_invocable_v<Func, Args...>`: the probe is passed on as written) and the `void` specialization; core.hpp
+    probes exactly these eleven argument lists, each naming a TYPE without a reference, i.e. std::is_invocable asks for an
+    RVALUE — what the core passes for unique futures.  Hence `Result<V,E>`, `Result<V,E>&&`, `const Result<V,E>&`, `auto&&`,
+    `auto` are all Result callbacks (class `Sig.res` of the model), `V` / `V&&` / `const V&` value callbacks, and so on:
+    the model's signature class is the whole story.  (Seeded r3b-4: a specialization for Result<V,E> probing an LVALUE made
+    `Result<V,E>&&` callbacks value callbacks.)  The implementation side is the fixed matrix of harness/spell.cpp (incl. a
+    move-only V) and the spelling suffixes of the random programs. -/
+theorem callback_class_probes :
+    Extracted.Dispatch.isInvocableDefs =
+      [("IsInvocable", "(primary)", "staticconstexprboolValue=std::is_invocable_v<Func,Args...>;"),
+       ("IsInvocable", "<Func,void>", "staticconstexprboolValue=std::is_invocable_v<Func>;"),
+       ("Invoke", "(primary)", "usingType=std::invoke_result_t<Func,Args...>;"),
+       ("Invoke", "<Func,void>", "usingType=std::invoke_result_t<Func>;")] ∧
+    Extracted.Dispatch.isInvocableAlias = "detail::IsInvocable<Func,Arg...>::Value" ∧
+    Extracted.Dispatch.invokeAlias = "typenamedetail::Invoke<Func,Arg...>::Type" ∧
+    Extracted.Dispatch.coreProbes =
+      ["Func,E", "Func,Result<V,E>", "Func,Unit", "Func,V", "Func,std::exception_ptr", "Invoke", "Invoke,Arg", "Invoke,E",
+       "Invoke,Result<Arg,E>", "Invoke,Unit", "Invoke,std::exception_ptr"] := ⟨rfl, rfl, rfl, rfl⟩
 /-- util/result.hpp, whole text (comments and white space dropped): the Result algebra model was written from it -/
 theorem tie_result_hpp : Extracted.Kernels.ResultSrc_result_hpp = Skeletons.ResultSrc_result_hpp := rfl
 theorem tie_Core_Done : Extracted.Kernels.Core_Done = Skeletons.Core_Done := rfl
